@@ -51,7 +51,7 @@ TRUSTED = [
     "value conditions inside walkers are taken as 'leaf present and non-empty'; flags at their defaults",
     "int() of a \\d+ group is taken as total (the 4300-digit limit of CPython is outside the document model)",
 ]
-FLOORS = {"C02-WALK": 150, "C02-EXCL": 30, "C02-SINK": 6, "C02-FALLBACK": 20, "C02-BYTES": 24, "C02-REPEAT": 2, "C02-ONCE": 100, "C02-TRIM": 8}
+FLOORS = {"C02-WALK": 150, "C02-EXCL": 30, "C02-SINK": 6, "C02-FALLBACK": 20, "C02-BYTES": 24, "C02-REPEAT": 2, "C02-DATA": 2, "C02-ONCE": 100, "C02-TRIM": 8}
 
 # ------------------------------------------------------------------------------------------------ WALK
 
@@ -978,6 +978,67 @@ def rule_repeat(ctx: Ctx) -> RuleReport:
     return rep
 
 
+def rule_data(ctx: Ctx) -> RuleReport:
+    """html.parser based readers: character data that is not inside a removed element always lands somewhere."""
+    from sa.rules.c17 import _parsers
+
+    rep = RuleReport("C02-DATA", "handle_data of the html.parser subclasses never returns without storing its argument on a path that tested the argument itself (no piece of character data is dropped because of what it contains)")
+    for cls in _parsers(ctx):
+        hd = cls.methods.get("handle_data")
+        if hd is None:
+            raise AnalysisError(f"C02-DATA: {cls.name} has no handle_data")
+        rep.unit(hd.key)
+        param = hd.node.args.args[1].arg if len(hd.node.args.args) > 1 else None
+        guard = next((i for i in hd.node.body if isinstance(i, ast.If) and i.body and isinstance(i.body[-1], ast.Return)), None)
+        if param is None or guard is None:
+            raise AnalysisError(f"C02-DATA: {cls.name}.handle_data has no data parameter / suppression guard")
+        sup_attrs = {a.attr for a in ast.walk(guard.test) if isinstance(a, ast.Attribute) and isinstance(a.value, ast.Name) and a.value.id == "self"}
+        cfg = ctx.cfg(hd)
+        stores = set()
+        for nd in cfg.nodes:
+            if nd.ast is not None and nd.kind == "stmt" and not isinstance(nd.ast, (ast.If, ast.For, ast.While, ast.Try, ast.With, ast.Return)):
+                uses = any(isinstance(x, ast.Name) and x.id == param for x in ast.walk(nd.ast))
+                writes = isinstance(nd.ast, (ast.AugAssign, ast.Assign)) or any(isinstance(x, ast.Call) and isinstance(x.func, ast.Attribute) and x.func.attr in ("append", "extend", "write", "handle_data") for x in ast.walk(nd.ast))
+                if uses and writes:
+                    stores.add(nd.id)
+        if not stores:
+            raise AnalysisError(f"C02-DATA: {cls.name}.handle_data never stores its data")
+        # paths entry -> exit avoiding every store
+        bad = None
+        state_only = None
+        stack = [(cfg.entry, [])]
+        seen = set()
+        while stack and bad is None:
+            n, reasons = stack.pop()
+            for s_ in cfg.succ[n]:
+                if s_ in stores:
+                    continue
+                lab = cfg.elabel.get((n, s_))
+                nd = cfg.nodes[n]
+                r2 = reasons + [(nd.ast, lab)] if nd.kind == "test" and lab in ("true", "false") else reasons
+                if s_ == cfg.exit:
+                    suppressed = any({a.attr for a in ast.walk(t) if isinstance(a, ast.Attribute) and isinstance(a.value, ast.Name) and a.value.id == "self"} & sup_attrs and lab_ == "true" for t, lab_ in r2)
+                    on_data = any(any(isinstance(x, ast.Name) and x.id == param for x in ast.walk(t)) for t, _l in r2)
+                    if not suppressed and on_data:
+                        bad = r2
+                        break
+                    if not suppressed:
+                        state_only = r2
+                    continue
+                if lab == "exc" or s_ == cfg.raise_exit or (s_, len(r2)) in seen:
+                    continue
+                seen.add((s_, len(r2)))
+                stack.append((s_, r2))
+        if bad is None:
+            if state_only is not None:
+                rep.info.append(f"{hd.key}: a path that stores nothing depends on parser state only ({' and '.join(short(t, 30) + ' is ' + l for t, l in state_only[-2:])}); not judged")
+            rep.ok({"parser": cls.name, "data": "never dropped because of its content"})
+        else:
+            why = " and ".join(f"{anorm(t, hd.node)} is {l}" for t, l in bad[-2:]) or "unconditionally"
+            rep.fail(Finding("C02-DATA", cls.module.rel, hd.qual, "data dropped when " + why, f"handle_data returns without storing its text when {' and '.join(short(t, 40) + ' is ' + l for t, l in bad[-2:]) or 'always'} although no removed element is open: that piece of body text is missing (white space between two inline elements glues 'Ada' and 'Lovelace' together)", line=hd.node.lineno))
+    return rep
+
+
 def rule_once(ctx: Ctx) -> RuleReport:
     """A text accessor that writes into the stored pieces (e.g. extends body_text while combining) repeats text on the next call."""
     from sa.rules.c06 import rule_pure
@@ -1002,4 +1063,4 @@ def rule_trim(ctx: Ctx) -> RuleReport:
     return rep
 
 
-RULES = [rule_walk, rule_excl, rule_sink, rule_fallback, rule_bytes, rule_repeat, rule_once, rule_trim]
+RULES = [rule_walk, rule_excl, rule_sink, rule_fallback, rule_bytes, rule_repeat, rule_data, rule_once, rule_trim]
